@@ -42,6 +42,10 @@ func main() {
 		os.Exit(cmdReplay(os.Args[2:]))
 	case "gen":
 		os.Exit(cmdGen(os.Args[2:]))
+	case "digest":
+		os.Exit(cmdDigest(os.Args[2:]))
+	case "neutral":
+		os.Exit(cmdNeutral(os.Args[2:]))
 	}
 	fmt.Fprintln(os.Stderr, "unknown command", os.Args[1])
 	os.Exit(2)
@@ -573,4 +577,78 @@ func cmdRun(args []string) int {
 		return 2
 	}
 	return exit
+}
+
+// ---------------------------------------------------------------------------
+// self-tests
+
+// cmdDigest executes runs [0,n) of a property in this process and prints one
+// combined digest over all event logs and tick totals (determinism self-test:
+// the value must not depend on process, GOMAXPROCS or worker count).
+func cmdDigest(args []string) int {
+	fs := flag.NewFlagSet("digest", flag.ExitOnError)
+	prop := fs.String("prop", "C01", "")
+	tier := fs.String("tier", "quick", "")
+	seed := fs.Uint64("seed", 1, "")
+	runs := fs.Int("runs", 200, "")
+	fs.Parse(args)
+	p := props[*prop]
+	if p == nil {
+		return 2
+	}
+	h := uint64(14695981039346656037)
+	var ticks int64
+	for run := 0; run < *runs; run++ {
+		t := makeTrace(p, *seed, *tier, run)
+		res := p.Exec(t)
+		d := res.Digest()
+		for i := 0; i < 8; i++ {
+			h ^= (d >> (8 * uint(i))) & 0xff
+			h *= 1099511628211
+		}
+		ticks += res.Ticks
+		if t.Sched != nil {
+			for _, sg := range t.Sched.Segs {
+				h ^= uint64(sg.Task)<<40 ^ uint64(sg.Ticks)
+				h *= 1099511628211
+			}
+		}
+	}
+	fmt.Printf("%s seed=%d runs=%d digest=%016x ticks=%d\n", p.ID, *seed, *runs, h, ticks)
+	return 0
+}
+
+// cmdNeutral checks that the generated yield points do not change library
+// behaviour: every run is executed with simyield.Hook == nil and with the tick
+// hook; observations must be identical.
+func cmdNeutral(args []string) int {
+	fs := flag.NewFlagSet("neutral", flag.ExitOnError)
+	prop := fs.String("prop", "C01", "")
+	seed := fs.Uint64("seed", 1, "")
+	runs := fs.Int("runs", 500, "")
+	fs.Parse(args)
+	p := props[*prop]
+	if p == nil {
+		return 2
+	}
+	bad := 0
+	for run := 0; run < *runs; run++ {
+		t := makeTrace(p, *seed, "quick", run)
+		if t.World == "multi" {
+			continue
+		}
+		simyield.Hook = nil
+		a := p.Exec(t.Clone())
+		simyield.Hook = tickHook
+		b := p.Exec(t.Clone())
+		if d := firstObsDiff(a, b, false); d >= 0 {
+			bad++
+			fmt.Printf("neutrality: %s run %d differs at op %d: %q vs %q\n", p.ID, run, d, obsAt(a, d), obsAt(b, d))
+		}
+	}
+	fmt.Printf("neutrality %s: %d runs compared, %d differences\n", p.ID, *runs, bad)
+	if bad > 0 {
+		return 1
+	}
+	return 0
 }
